@@ -160,6 +160,10 @@ type c09Case struct {
 	Tweak uint32    `json:"tweak"`
 	Flags byte      `json:"flags"`
 	Ops   []bloomOp `json:"ops"`
+	// Ctor: how the filter object comes to hold its first message. 0 LoadFilter(msg); 1 a zero-value Filter, then
+	// Reload(msg); 2 LoadFilter(nil), then Reload(msg) (what a peer does); 3 NewFilter (size and hash count are then
+	// the library's choice and are read back from the message)
+	Ctor int `json:"ctor,omitempty"`
 }
 
 func toHash(b []byte) *chainhash.Hash {
@@ -172,7 +176,26 @@ func evalC09(c c09Case, o *Obs) error {
 	if c.Len < 1 || c.Len > 36000 || c.K > 50 {
 		return hbug("filter parameters outside the wire limits")
 	}
-	f := bloom.LoadFilter(wire.NewMsgFilterLoad(make([]byte, c.Len), c.K, c.Tweak, wire.BloomUpdateType(c.Flags)))
+	var f *bloom.Filter
+	first := wire.NewMsgFilterLoad(make([]byte, c.Len), c.K, c.Tweak, wire.BloomUpdateType(c.Flags))
+	switch c.Ctor {
+	case 1:
+		f = new(bloom.Filter)
+		f.Reload(first)
+	case 2:
+		f = bloom.LoadFilter(nil)
+		f.Reload(first)
+	case 3:
+		f = bloom.NewFilter(uint32(c.Len%200+1), c.Tweak, 0.01, wire.BloomUpdateType(c.Flags))
+		if msg := f.MsgFilterLoad(); msg == nil || len(msg.Filter) < 1 || len(msg.Filter) > 36000 || msg.HashFuncs > 50 {
+			return fmt.Errorf("bloom.NewFilter(%d, %d, 0.01) holds a message outside the wire limits", c.Len%200+1, c.Tweak)
+		} else {
+			c.Len, c.K = len(msg.Filter), msg.HashFuncs
+		}
+	default:
+		f = bloom.LoadFilter(first)
+	}
+	o.Class("C09:ctor=%d", c.Ctor)
 	m := newRefBloom(c.Len, c.K, c.Tweak, c.Flags)
 	var inserted [][]byte
 	sawInsert, sawQueryAfter := false, false
@@ -422,6 +445,7 @@ func genFilterParams(t *rapid.T, label string) (n int, k, tweak uint32, flags by
 func genC09(t *rapid.T) c09Case {
 	c := c09Case{}
 	c.Len, c.K, c.Tweak, c.Flags = genFilterParams(t, "f")
+	c.Ctor = rapid.SampledFrom([]int{0, 0, 0, 1, 2, 3}).Draw(t, "ctor")
 	// small item alphabet so queries hit members
 	pool := [][]byte{}
 	np := rapid.IntRange(1, 6).Draw(t, "pool")
@@ -449,6 +473,12 @@ func genC09(t *rapid.T) c09Case {
 	}
 	n := rapid.IntRange(1, 30).Draw(t, "nops")
 	for i := 0; i < n; i++ {
+		if rapid.IntRange(0, 14).Draw(t, "rawop") == 0 {
+			// the 36 bytes of an outpoint inserted as plain data: the outpoint is then in the filter, whoever asks how
+			h, i := hash32(), idx()
+			c.Ops = append(c.Ops, bloomOp{Op: "add", Data: outpointBytes(h, i)}, bloomOp{Op: "matchesoutpoint", Data: h, Index: i})
+			continue
+		}
 		switch rapid.IntRange(0, 19).Draw(t, "op") {
 		case 0, 1, 2, 3, 4:
 			c.Ops = append(c.Ops, bloomOp{Op: "add", Data: item()})
